@@ -90,6 +90,7 @@
 #![forbid(unsafe_code)]
 #![deny(rust_2018_idioms)]
 #![allow(clippy::match_like_matches_macro)]
+#![allow(unknown_lints, unexpected_cfgs)]
 
 #[cfg(any(
     feature = "ssl-openssl",
@@ -107,7 +108,10 @@ use std::sync::atomic::AtomicBool;
 use std::sync::atomic::Ordering::Relaxed;
 use std::sync::mpsc;
 use std::sync::Arc;
+#[cfg(not(tiny_http_verif))]
 use std::thread;
+#[cfg(tiny_http_verif)]
+use tiny_http_vrt::thread;
 use std::time::Duration;
 
 use client::ClientConnection;
